@@ -184,12 +184,16 @@ def finiLoop : Nat → State → Nat → Nat → Nat → Out Unit
 /-- number of iterations of `for (p = a; p < stop; p += sz)` -/
 def iters (a stop sz : Nat) : Nat := (stop - a + sz - 1) / sz
 
-/-- `for (n times) { init(ptr + pos, 0); pos += sz; }` ignoring the results (array_slice.c) -/
-def initLoopIgnore : Nat → State → Nat → Nat → Nat → Out Unit
+/-- `for (n times) { if (init(ptr + pos, 0) < 0) { _used = pos; return 0; } pos += sz; }` (array_slice.c) -/
+def initLoopStop : Nat → State → Nat → Nat → Nat → Out Unit
   | 0, s, _, _, _ => .ok s ()
   | n + 1, s, b, pos, sz =>
     match initAt s b pos sz none with
-    | .ok s1 _ => initLoopIgnore n s1 b (pos + sz) sz
+    | .ok s1 true => initLoopStop n s1 b (pos + sz) sz
+    | .ok s1 false =>
+      (match s1.buf? b with
+       | none => .fault "slice: freed buffer"
+       | some y => .fail (s1.setBuf b { y with used := pos }) .null)
     | .fail s1 e => .fail s1 e
     | .fault w => .fault w
 
@@ -234,7 +238,8 @@ def bufferInsert (s : State) (b pos len : Nat) : Out Nat :=
             match s1.buf? b with
             | none => .fault "buffer_insert: freed buffer"
             | some y =>
-              .ok (if pos > stop then s1.setBuf b { y with data := Mem.write y.data stop (zeros (pos - stop)) } else s1) pos
+              -- a refused constructor: keep the elements built so far, fail
+              if pos > stop then .fail (s1.setBuf b { y with used := stop }) .null else .ok s1 pos
           | .fail s1 e => .fail s1 e
           | .fault w => .fault w
         else
@@ -457,43 +462,39 @@ def ensure (s : State) (h b : Nat) (need : Bool) (n : Nat) : Out Nat :=
 
 /-! ### array level -/
 
+/-- content types of the two buffers differ (`mpt_array_clone`: BadType) -/
+def cloneMismatch (s : State) (set buf : Option Nat) : Bool :=
+  match set, buf with
+  | some a, some b =>
+    (match s.buf? a, s.buf? b with
+     | some x, some y => x.traits ≠ y.traits
+     | _, _ => false)
+  | _, _ => false
+
+/-- `arr->_buf = set; if (buf) buf->unref();` with the return code of `mpt_array_clone` -/
+def replaceBuf (s : State) (dst : Nat) (set buf : Option Nat) : Out Int :=
+  match buf with
+  | none => .ok (s.setHandle dst set) (if set.isSome then 1 else 0)
+  | some b =>
+    match unref (s.setHandle dst set) b with
+    | .ok s3 _ => .ok s3 (if set.isSome then 3 else 2)
+    | .fail s3 e => .fail s3 e
+    | .fault w => .fault w
+
 /-- `mpt_array_clone(&dst, from)`; `from = none` is the NULL pointer (drop) -/
 def arrayClone (s : State) (dst : Nat) (src : Option Nat) : Out Int :=
-  let buf := s.handle dst
   match src with
-  | none =>
-    match buf with
-    | none => .ok s 0
-    | some b =>
-      match unref (s.setHandle dst none) b with
-      | .ok s1 _ => .ok s1 2
-      | .fail s1 e => .fail s1 e
-      | .fault w => .fault w
+  | none => replaceBuf s dst none (s.handle dst)
   | some hsrc =>
-    let set := s.handle hsrc
-    if set = buf then .ok s 0
+    if s.handle hsrc = s.handle dst then .ok s 0
+    else if cloneMismatch s (s.handle hsrc) (s.handle dst) then .fail s (.err .BadType)
     else
-      let mismatch : Bool := match set, buf with
-        | some a, some b => match s.buf? a, s.buf? b with
-          | some x, some y => x.traits ≠ y.traits
-          | _, _ => false
-        | _, _ => false
-      if mismatch then .fail s (.err .BadType)
-      else
-        let r : Out Nat := match set with
-          | some a => addref s a
-          | none => .ok s 1
-        match r with
+      match s.handle hsrc with
+      | none => replaceBuf s dst none (s.handle dst)
+      | some a =>
+        match addref s a with
         | .ok s1 0 => .fail s1 (.err .BadOperation)
-        | .ok s1 _ =>
-          let s2 := s1.setHandle dst set
-          match buf with
-          | none => .ok s2 (if set.isSome then 1 else 0)
-          | some b =>
-            match unref s2 b with
-            | .ok s3 _ => .ok s3 (if set.isSome then 3 else 2)
-            | .fail s3 e => .fail s3 e
-            | .fault w => .fault w
+        | .ok s1 _ => replaceBuf s1 dst (some a) (s.handle dst)
         | .fail s1 e => .fail s1 e
         | .fault w => .fault w
 
@@ -602,51 +603,49 @@ def arraySet (s : State) (h : Nat) (traits : Option Traits) (bytes : List Byte) 
               | .fail s1 _ => .fail s1 .null
               | .fault w => .fault w
 
+/-- alignment test of `mpt_array_slice` for typed buffers -/
+def sliceBad (x : Buf) (off len : Nat) : Bool :=
+  match x.traits with
+  | some t => t.size = 0 ∨ off % t.size ≠ 0 ∨ len % t.size ≠ 0 ∨ x.used % t.size ≠ 0
+  | none => false
+
+/-- new region of `mpt_array_slice`: default-construct (stop at the first failure) or zero -/
+def sliceFill (s : State) (h nb : Nat) (t : Option Traits) (p missing : Nat) : Out Unit :=
+  match t with
+  | some t =>
+    if t.init then initLoopStop (iters 0 missing t.size) s nb p t.size
+    else poke s h p (zeros missing)
+  | none => poke s h p (zeros missing)
+
+/-- extension part of `mpt_array_slice` on the (private) buffer `nb` -/
+def sliceGrow (s : State) (h nb : Nat) (t : Option Traits) (used missing off : Nat) : Out Nat :=
+  match bufferInsert s nb used missing with
+  | .ok s2 p =>
+    match sliceFill s2 h nb t p missing with
+    | .ok s3 _ => .ok s3 off
+    | .fail s3 e => .fail s3 e
+    | .fault w => .fault w
+  | .fail s2 _ => .fail s2 .null
+  | .fault w => .fault w
+
 /-- `mpt_array_slice(arr, off, len)`: offset of the requested region, which exists afterwards -/
 def arraySlice (s : State) (h off len : Nat) : Out Nat :=
-  let total := off + len
   match s.handle h with
   | none =>
     let nb := s.bufs.length
-    let s1 := (s.newBuf total 0).setHandle h (some nb)
+    let s1 := (s.newBuf (off + len) 0).setHandle h (some nb)
     match s1.buf? nb with
     | none => .fault "slice: freed buffer"
-    | some z => .ok (setUsed s1 nb z (if total ≠ 0 then Mem.write z.data 0 (zeros total) else z.data) total) off
+    | some z => .ok (setUsed s1 nb z (if off + len ≠ 0 then Mem.write z.data 0 (zeros (off + len)) else z.data) (off + len)) off
   | some b =>
     match s.buf? b with
     | none => .fault "slice: freed buffer"
     | some x =>
-      let used := x.used
-      let bad : Bool := match x.traits with
-        | some t => t.size = 0 ∨ off % t.size ≠ 0 ∨ len % t.size ≠ 0 ∨ used % t.size ≠ 0
-        | none => false
-      if bad then .fail s .null
+      if sliceBad x off len then .fail s .null
       else
-        match ensure s h b (total > x.size ∨ x.immutable ∨ x.shared) (max total used) with
+        match ensure s h b (off + len > x.size ∨ x.immutable ∨ x.shared) (max (off + len) x.used) with
         | .ok s1 nb =>
-          if total > used then
-            let missing := total - used
-            match bufferInsert s1 nb used missing with
-            | .ok s2 p =>
-              match x.traits with
-              | some t =>
-                if t.init then
-                  match initLoopIgnore (iters 0 missing t.size) s2 nb p t.size with
-                  | .ok s3 _ => .ok s3 off
-                  | .fail s3 e => .fail s3 e
-                  | .fault w => .fault w
-                else
-                  match poke s2 h p (zeros missing) with
-                  | .ok s3 _ => .ok s3 off
-                  | .fail s3 e => .fail s3 e
-                  | .fault w => .fault w
-              | none =>
-                match poke s2 h p (zeros missing) with
-                | .ok s3 _ => .ok s3 off
-                | .fail s3 e => .fail s3 e
-                | .fault w => .fault w
-            | .fail s2 _ => .fail s2 .null
-            | .fault w => .fault w
+          if off + len > x.used then sliceGrow s1 h nb x.traits x.used (off + len - x.used) off
           else .ok s1 off
         | .fail s1 _ => .fail s1 .null
         | .fault w => .fault w
@@ -667,86 +666,86 @@ def arrayReduce (s : State) (h : Nat) : Out Nat :=
       | .fail s1 _ => .ok s1 x.size
       | .fault w => .fault w
 
+/-- copy step of the shared / immutable branch of `mpt_array_reserve`: compatible content is copied into the
+    new buffer `nb`, cut to the reserved length -/
+def reserveCopy (s : State) (nb : Nat) (x : Buf) (len : Nat) (traits : Option Traits) : Out Int :=
+  if x.traits = traits ∧ ¬ x.nocopy ∧ min (x.used - x.used % esize x.traits) len ≠ 0 then
+    bufferSet s nb traits 0 (x.data.take (min (x.used - x.used % esize x.traits) len)) true
+  else .ok s 0
+
 /-- shared / immutable / empty branch of `mpt_array_reserve` -/
 def reserveNew (s : State) (h : Nat) (buf : Option Nat) (len : Nat) (traits : Option Traits) : Out Nat :=
-  let nb := s.bufs.length
-  let s1 := s.newBuf len 0 traits
   match buf with
-  | none => .ok (s1.setHandle h (some nb)) nb
+  | none => .ok ((s.newBuf len 0 traits).setHandle h (some s.bufs.length)) s.bufs.length
   | some b =>
-    match s1.buf? b with
+    match s.buf? b with
     | none => .fault "reserve: freed buffer"
     | some x =>
-      let esz := match x.traits with
-        | some o => o.size
-        | none => 1
-      if esz = 0 then .fault "reserve: division by zero"
+      if esize x.traits = 0 then .fault "reserve: division by zero"
       else
-        let used := min (x.used - x.used % esz) len
-        let r : Out Int :=
-          if x.traits = traits ∧ ¬ x.nocopy ∧ used ≠ 0 then bufferSet s1 nb traits 0 (x.data.take used) true
-          else .ok s1 0
-        match r with
+        match reserveCopy (s.newBuf len 0 traits) s.bufs.length x len traits with
         | .ok s2 _ =>
-          match unref s2 b with
-          | .ok s3 _ => .ok (s3.setHandle h (some nb)) nb
-          | .fail s3 e => .fail s3 e
-          | .fault w => .fault w
+          (match unref s2 b with
+           | .ok s3 _ => .ok (s3.setHandle h (some s.bufs.length)) s.bufs.length
+           | .fail s3 e => .fail s3 e
+           | .fault w => .fault w)
         | .fail s2 _ =>
-          match unref s2 nb with
-          | .ok s3 _ => .fail s3 .null
-          | .fail s3 e => .fail s3 e
-          | .fault w => .fault w
+          (match unref s2 s.bufs.length with
+           | .ok s3 _ => .fail s3 .null
+           | .fail s3 e => .fail s3 e
+           | .fault w => .fault w)
         | .fault w => .fault w
+
+/-- finalise all elements of a private buffer whose type is replaced -/
+def reserveFini (s : State) (b : Nat) (x : Buf) : Out Unit :=
+  match x.traits with
+  | some o =>
+    if o.fini.isSome then
+      if o.size = 0 then .fault "reserve: division by zero"
+      else finiLoop ((x.used - x.used % o.size) / o.size) s b 0 o.size
+    else .ok s ()
+  | none => .ok s ()
+
+/-- incompatible data of a private buffer is dropped by `mpt_array_reserve` (types are compatible when
+    they share the finaliser) -/
+def reserveClear (s : State) (b : Nat) (x : Buf) (traits : Option Traits) : Out Unit :=
+  if x.traits ≠ traits ∧ (x.traits.isNone ∨ (x.traits.bind (·.fini)).isNone ∨ traits.isNone
+      ∨ x.traits.bind (·.fini) ≠ traits.bind (·.fini)) then
+    match reserveFini s b x with
+    | .ok s1 _ =>
+      (match s1.buf? b with
+       | none => .fault "reserve: freed buffer"
+       | some y => .ok (s1.setBuf b { y with used := 0 }) ())
+    | .fail s1 e => .fail s1 e
+    | .fault w => .fault w
+  else .ok s ()
 
 /-- private, mutable branch of `mpt_array_reserve` -/
 def reserveKeep (s : State) (h b : Nat) (x : Buf) (len : Nat) (traits : Option Traits) : Out Nat :=
-  let fini := x.traits.bind (·.fini)
-  let clear : Bool := x.traits ≠ traits ∧ (x.traits.isNone ∨ fini.isNone ∨ traits.isNone ∨ fini ≠ traits.bind (·.fini))
-  let r : Out Unit :=
-    if clear then
-      let r0 : Out Unit := match x.traits with
-        | some o => if o.fini.isSome then
-            if o.size = 0 then .fault "reserve: division by zero"
-            else finiLoop ((x.used - x.used % o.size) / o.size) s b 0 o.size
-          else .ok s ()
-        | none => .ok s ()
-      match r0 with
-      | .ok s1 _ =>
-        match s1.buf? b with
-        | none => .fault "reserve: freed buffer"
-        | some y => .ok (s1.setBuf b { y with used := 0 }) ()
-      | .fail s1 e => .fail s1 e
-      | .fault w => .fault w
-    else .ok s ()
-  match r with
+  match reserveClear s b x traits with
   | .ok s1 _ =>
-    match detach s1 b len with
-    | .ok s2 nb =>
-      match s2.buf? nb with
-      | none => .fault "reserve: freed buffer"
-      | some z => .ok ((s2.setHandle h (some nb)).setBuf nb { z with traits := traits }) nb
-    | .fail s2 _ => .fail s2 .null
-    | .fault w => .fault w
+    (match ensure s1 h b true len with
+     | .ok s2 nb =>
+       (match s2.buf? nb with
+        | none => .fault "reserve: freed buffer"
+        | some z => .ok (s2.setBuf nb { z with traits := traits }) nb)
+     | .fail s2 _ => .fail s2 .null
+     | .fault w => .fault w)
   | .fail s1 e => .fail s1 e
   | .fault w => .fault w
 
 /-- `mpt_array_reserve(arr, len, traits)`: identity of the buffer -/
 def arrayReserve (s : State) (h len : Nat) (traits : Option Traits) : Out Nat :=
-  let sz := match traits with
-    | some t => t.size
-    | none => 1
-  if sz = 0 then .fail s .null
+  if esize traits = 0 then .fail s .null
   else
-    let len := roundUp len sz
     match s.handle h with
-    | none => reserveNew s h none len traits
+    | none => reserveNew s h none (roundUp len (esize traits)) traits
     | some b =>
       match s.buf? b with
       | none => .fault "reserve: freed buffer"
       | some x =>
-        if x.shared ∨ x.immutable then reserveNew s h (some b) len traits
-        else reserveKeep s h b x len traits
+        if x.shared ∨ x.immutable then reserveNew s h (some b) (roundUp len (esize traits)) traits
+        else reserveKeep s h b x (roundUp len (esize traits)) traits
 
 /-- `vsnprintf(base, len, "%s", text)` into the buffer at `pos`: at most `len-1` characters and a NUL -/
 def snprintfAt (s : State) (h pos len : Nat) (text : List Byte) : Out Unit :=
@@ -929,6 +928,52 @@ def allocOp (s : State) (h n flags : Nat) (traits : Option Traits) (bytes : List
     match s2.buf? nb with
     | none => .fault "alloc: freed buffer"
     | some z => .ok (setUsed s2 nb z (Mem.write z.data 0 bytes) bytes.length) ()
+  | .fail s1 e => .fail s1 e
+  | .fault w => .fault w
+
+/-! ### elements handled by the caller (C05 harness) -/
+
+/-- `k` source elements constructed by the caller (never refused): their bytes -/
+def sourcesBytes (first k sz : Nat) : List Byte :=
+  (List.range k).flatMap fun i => elemBytes (first + i) sz
+
+/-- the caller constructs `k` source elements: tokens `next ..`, logged -/
+def sourcesInit (s : State) (k : Nat) : State :=
+  { s with next := s.next + k, log := s.log ++ (List.range k).map fun i => Ev.init (s.next + i) }
+
+/-- the caller destroys its `k` source elements again -/
+def sourcesFini (s : State) (first k : Nat) : State :=
+  { s with log := s.log ++ (List.range k).map fun i => Ev.fini (first + i) }
+
+/-- constructions done by the caller in library-provided memory (never refused) -/
+def ctorLoop : Nat → State → Nat → Nat → Nat → Out Unit
+  | 0, s, _, _, _ => .ok s ()
+  | n + 1, s, b, pos, sz =>
+    match initAt { s with oracle := [] } b pos sz none with
+    | .ok s1 _ => ctorLoop n { s1 with oracle := s.oracle } b (pos + sz) sz
+    | .fail s1 e => .fail s1 e
+    | .fault w => .fault w
+
+/-- `p = mpt_array_insert(arr, pos, len)` followed by what the caller does with the region: construct the
+    elements when the buffer has a constructor, copy the bytes otherwise -/
+def insertOpE (s : State) (h pos : Nat) (bytes : List Byte) : Out Nat :=
+  match arrayInsert s h pos bytes.length with
+  | .ok s1 p =>
+    let managed : Option Traits := ((s1.handle h).bind s1.buf?).bind fun x => x.traits.bind fun t => if t.init ∧ t.size ≠ 0 then some t else none
+    match managed with
+    | some t =>
+      (match s1.handle h with
+       | none => .fault "insert: no buffer"
+       | some nb =>
+         match ctorLoop (bytes.length / t.size) s1 nb p t.size with
+         | .ok s2 _ => .ok s2 p
+         | .fail s2 e => .fail s2 e
+         | .fault w => .fault w)
+    | none =>
+      match poke s1 h p bytes with
+      | .ok s2 _ => .ok s2 p
+      | .fail s2 e => .fail s2 e
+      | .fault w => .fault w
   | .fail s1 e => .fail s1 e
   | .fault w => .fault w
 
